@@ -33,7 +33,7 @@ var Profiles = map[string]func() Profile{
 		p := base()
 		p.Name = "churn"
 		p.W = wts(int(KNewEntity), 30, int(KNewBatch), 8, int(KCopy), 8, int(KRemoveEntity), 34, int(KRemoveEntities), 6, int(KAdd), 4, int(KRemove), 2,
-			int(KReset), 1, int(KShrink), 1)
+			int(KReset), 1, int(KShrink), 1, int(KSetRel), 6, int(KSetRelBatch), 2, int(KExchange), 2)
 		p.MaxAlive = 24
 		p.MaxComps = 2
 		p.RelPct = 20
@@ -191,7 +191,7 @@ var Profiles = map[string]func() Profile{
 		p.W = wts(int(KNewEntity), 14, int(KNewBatch), 6, int(KAdd), 14, int(KRemove), 12, int(KExchange), 10, int(KSet), 6, int(KWrite), 8,
 			int(KSetRel), 5, int(KCopy), 5, int(KRemoveEntity), 10, int(KAddBatch), 4, int(KRemoveBatch), 4, int(KExchangeBatch), 3,
 			int(KSetRelBatch), 3, int(KRemoveEntities), 4, int(KReset), 1, int(KShrink), 4, int(KAddRes), 2, int(KRemoveRes), 2)
-		p.HotFixed = []int{u.IPtr, u.ISlc, u.IStr, u.IMp, u.IIfc, u.IMix, u.IR2, u.IP8, u.IZ0, u.IR1}
+		p.HotFixed = []int{u.IPtr, u.ISlc, u.IStr, u.IMp, u.IIfc, u.IMix, u.IR2, u.IP8, u.IZ0, u.IR1, u.IFn}
 		p.RelPct = 60
 		p.MaxAlive = 70
 		p.MaxBatchNew = 20
